@@ -39,6 +39,23 @@ fn amount(conv: &Converter, q: &ScaledQuantity) -> Option<(String, f64, f64)> {
     }
 }
 
+/// the same amount by the independent table of standard definitions (where the unit is in it): a converter whose own
+/// unit definitions are inconsistent with each other (a prefixed unit left behind when its base was re-defined by a later
+/// layer) conserves "its" amounts and still scales 0.2 kg to 400000 g
+fn amount_by_table(conv: &Converter, q: &ScaledQuantity) -> Option<(f64, f64)> {
+    let (lo, hi) = match q.value() {
+        Value::Number(n) => (n.value(), n.value()),
+        Value::Range { start, end } => (start.value(), end.value()),
+        Value::Text(_) => return None,
+    };
+    let d = crate::units::def_of(conv, q.unit()?)?;
+    Some((d.to_base(lo), d.to_base(hi)))
+}
+
+fn close_table(a: f64, b: f64) -> bool {
+    (a - b).abs() <= 1e-6 * a.abs().max(b.abs()).max(1e-300)
+}
+
 fn close(a: f64, b: f64) -> bool {
     (a - b).abs() <= 1e-9 * a.abs().max(b.abs()).max(1e-300)
 }
@@ -73,6 +90,10 @@ fn check_quantity(conv: &Converter, what: &str, pre: &Pre, post: Option<&ScaledQ
                 (Some((ca, a0, a1)), Some((cb, b0, b1))) => {
                     if ca != cb || !close(a0, b0) || !close(a1, b1) {
                         bad.push(("fixed_amount_changed".into(), format!("{what}: {p} became {q} ({ca} {a0}..{a1} vs {cb} {b0}..{b1}) at factor {f}")));
+                    } else if let (Some((t0, t1)), Some((u0, u1))) = (amount_by_table(conv, p), amount_by_table(conv, q)) {
+                        if !close_table(t0, u0) || !close_table(t1, u1) {
+                            bad.push(("fixed_amount_changed_by_standard_definitions".into(), format!("{what}: {p} became {q}: {t0}..{t1} vs {u0}..{u1}")));
+                        }
                     }
                     "fixed_numeric"
                 }
@@ -92,6 +113,10 @@ fn check_quantity(conv: &Converter, what: &str, pre: &Pre, post: Option<&ScaledQ
                     // amounts are linear in the value only without offset; the generator uses no offset units
                     if ca != cb || !close((a0 - off) * f + off, b0) || !close((a1 - off) * f + off, b1) {
                         bad.push(("scaled_amount_wrong".into(), format!("{what}: {p} x {f} became {q} ({:?}); amount {a0}..{a1} x {f} != {b0}..{b1}", q.value())));
+                    } else if let (Some((t0, t1)), Some((u0, u1))) = (amount_by_table(conv, p), amount_by_table(conv, q)) {
+                        if off == 0.0 && (!close_table(t0 * f, u0) || !close_table(t1 * f, u1)) {
+                            bad.push(("scaled_amount_wrong_by_standard_definitions".into(), format!("{what}: {p} x {f} became {q}: by the standard definitions {t0}..{t1} x {f} != {u0}..{u1}")));
+                        }
                     }
                     "scaled"
                 }
@@ -354,6 +379,11 @@ fn set_servings_sequence(ctx: &mut Ctx, ps: &mut Parsers, case: &Case, list: &[u
 
 pub fn run(ctx: &mut Ctx) {
     let mut ps = Parsers::new();
+    if let Some(c) = crate::mon::c09::layered_converter() {
+        ps.register("layered", c);
+    } else {
+        ctx.harness_errors.push("C08: the layered converter does not build".into());
+    }
     let n = ctx.budget(5_000, 1_200_000);
     for i in 0..n {
         let extended = i % 3 != 0;
@@ -362,7 +392,10 @@ pub fn run(ctx: &mut Ctx) {
         let mut r = Rng::new(seed);
         let spec = g::gen_spec(&mut r, &opts);
         let sp = g::spell(&spec, seed, feat::ALL, 1);
-        let (ext, conv) = if extended { (Extensions::all().bits(), "bundled") } else { (0, "empty") };
+        let (ext, conv) = if extended { (Extensions::all().bits(), if i % 5 == 1 { "layered" } else { "bundled" }) } else { (0, "empty") };
+        if conv == "layered" {
+            ctx.count("recipes_scaled_with_layered_converter");
+        }
         // sp.expected["data"] is the servings list the reference semantics derives from the spec (null = none)
         let declared = sp.expected.as_ref().map(|e| e["data"].clone()).unwrap_or(J::Null);
         // per ingredient: the scaling kind the SOURCE asks for ("linear" / "fixed" / null) by the reference semantics —
@@ -388,6 +421,9 @@ pub fn run(ctx: &mut Ctx) {
 
 pub fn replay(ctx: &mut Ctx, case: &Case) {
     let mut ps = Parsers::new();
+    if let Some(c) = crate::mon::c09::layered_converter() {
+        ps.register("layered", c);
+    }
     let f: Vec<f64> = case.params.get("factor").and_then(|x| x.as_f64()).map(|x| vec![x]).unwrap_or_else(|| vec![2.0, 0.5]);
     let t: Vec<u32> = case.params.get("servings_target").and_then(|x| x.as_u64()).map(|x| vec![x as u32]).unwrap_or_else(|| vec![1, 7]);
     let mut c = case.clone();
